@@ -2,6 +2,7 @@
 
 package natsort
 
+
 // C20: the natural-sort comparison is a strict total order that compares digit
 // runs by value.
 
@@ -109,4 +110,44 @@ func VfC20_Strings() {
 	Strings(y)
 	vfAssert("C20.sorted.ordered", vfAnd(vfNot(Less(x[1], x[0])), vfNot(Less(x[2], x[1]))))
 	vfAssert("C20.sorted.order-independent", vfAnd(x[0] == y[0], vfAnd(x[1] == y[1], x[2] == y[2])))
+}
+
+// VfC20_LongRuns: digit runs far beyond 64 bits (19-21 digits, all digits
+// symbolic, at most one leading zero each): Less still agrees with numeric
+// comparison.  The reference compares the runs as numbers written in decimal:
+// strip leading zeros, a longer run is larger, equal lengths compare
+// digit-wise; equal values are ordered by the number of leading zeros.
+//
+//vf:unwind 200
+//vf:shards 9
+func VfC20_LongRuns() {
+	lens := [...]int{19, 20, 21}
+	l1 := lens[vfChoice("l1", 3)]
+	l2 := lens[vfChoice("l2", 3)]
+	d1 := vfString("d1", l1)
+	d2 := vfString("d2", l2)
+	vfAssume(hIsDigits(d1))
+	vfAssume(hIsDigits(d2))
+	vfAssume(vfAnd(d1[1] != '0', d2[1] != '0'))
+	vfReach("C20.longruns")
+	z1, z2 := 0, 0
+	if d1[0] == '0' {
+		z1 = 1
+	}
+	if d2[0] == '0' {
+		z2 = 1
+	}
+	s1, s2 := d1[z1:], d2[z2:]
+	var want bool
+	switch {
+	case len(s1) != len(s2):
+		want = len(s1) < len(s2)
+	default:
+		want = vfOr(s1 < s2, vfAnd(s1 == s2, z1 < z2))
+	}
+	got := Less("t"+d1, "t"+d2)
+	rev := Less("t"+d2, "t"+d1)
+	vfAssert("C20.numeric.long-runs", got == want)
+	vfAssert("C20.asymmetric.long-runs", vfNot(vfAnd(got, rev)))
+	vfAssert("C20.total.long-runs", vfImp(vfNot(vfEqStr(d1, d2)), vfOr(got, rev)))
 }
